@@ -6,7 +6,7 @@ from xml.sax.saxutils import escape
 
 from bs4 import BeautifulSoup
 
-from .base import DFXPWriter, DFXP_DEFAULT_REGION
+from .base import DFXPWriter, DFXP_DEFAULT_REGION, _escape_attr
 from ..base import BaseWriter, CaptionNode, merge_concurrent_captions
 
 LEGACY_DFXP_BASE_MARKUP = '''
@@ -125,7 +125,7 @@ class LegacyDFXPWriter(BaseWriter):
 
         for lang in langs:
             div = dfxp.new_tag('div')
-            div['xml:lang'] = lang
+            div['xml:lang'] = _escape_attr(lang)
 
             for caption in caption_set.get_captions(lang):
                 if caption.style:
@@ -227,6 +227,7 @@ class LegacyDFXPWriter(BaseWriter):
         return line
 
     def _recreate_style(self, content, dfxp):
+        content = {k: _escape_attr(v) for k, v in content.items()}
         dfxp_style = {}
 
         if 'region' in content:
